@@ -20,7 +20,7 @@ pub enum P1<'a> {
         id: u8,
         #[arg(short = 'l', long = "lv")]
         level: Option<u8>,
-        #[arg(short, long)]
+        #[arg(short, long = "loud")]
         verbose: bool,
     },
     #[command(name = "rd")]
@@ -75,7 +75,8 @@ pub enum G<'a> {
 const F_LED: [Field; NF] = [
     Field { kind: POS, ty: T_U8, ..NO_FIELD },
     Field { kind: OPT, short: 'l' as u32, long: b"lv", ty: T_U8, optional: true, ..NO_FIELD },
-    Field { kind: FLAG, short: 'v' as u32, long: b"verbose", ty: T_BOOL, ..NO_FIELD },
+    // generated short name comes from the FIELD name (v), the long name is explicit
+    Field { kind: FLAG, short: 'v' as u32, long: b"loud", ty: T_BOOL, ..NO_FIELD },
 ];
 const U_LED: [&str; NF] = ["<ID>", "", ""];
 
